@@ -3,4 +3,5 @@ HARNESSES = [
     dict(name='num'),
     dict(name='timeh', need_lib=True),
     dict(name='tables', need_schema=True),
+    dict(name='store', need_schema=True, extra_flags=['-ldl']),
 ]
